@@ -256,7 +256,7 @@ def c09(ctx):
                            "stamp, or absence over [call, return] (only up to the halting point) - is appended as a pseudo-get to that key's point-operation history "
                            "and must be linearizable with it. Distinct+non-trivial: (program, switch signature) new, >= 1 intra-operation switch and a scan "
                            "overlapped a successful insert/remove of another thread")
-    ctx.floors = ctx.floors + [("scans_judged", 2000), ("executions_scan_overlapping_successful_write", 300)]
+    ctx.floors = ctx.floors + [("scans_judged", 2000), ("executions_scan_overlapping_successful_write", 300), ("scans_with_prefix_bounds", 1000)]
 
 
 @prop("C14")
